@@ -215,6 +215,26 @@ func (w *World) Fn(rel, name string) *ssa.Function {
 	} else {
 		fn = p.Func(name)
 	}
+	if fn == nil {
+		// methods of generic types have no entry in the method set of the
+		// uninstantiated type: find the generic body by its stable name
+		want := rel + "." + name
+		for _, f := range w.AllFuncs {
+			n := FnName(f)
+			if i := strings.Index(n, "["); i > 0 {
+				n = n[:i]
+			}
+			if f.Parent() != nil || n != want {
+				continue
+			}
+			if o := f.Origin(); o != nil && o.Blocks != nil {
+				fn = o
+			} else {
+				fn = f
+			}
+			break
+		}
+	}
 	if fn == nil || closure == "" {
 		return fn
 	}
